@@ -302,6 +302,8 @@ pub enum Act {
     Deliver(Pkt),
     /// two datagrams queue up before the connection runs
     Deliver2(Pkt, Pkt),
+    /// three datagrams handed to the connection in one poll
+    Deliver3(Pkt, Pkt, Pkt),
     Write(usize),
     Read(usize),
     Flush,
@@ -1269,7 +1271,7 @@ impl World {
             Act::Read(_) | Act::ReadV(..) => self.reader.is_some() && self.r_parked == Parked::No && !self.reader_eof && self.reader_err.is_none(),
             Act::DropReader => self.reader.is_some(),
             Act::DropWriter => self.writer.is_some(),
-            Act::Deliver(_) | Act::Deliver2(..) | Act::Spurious | Act::Tick | Act::Wait(_) | Act::Sleep(_) => self.done.is_none(),
+            Act::Deliver(_) | Act::Deliver2(..) | Act::Deliver3(..) | Act::Spurious | Act::Tick | Act::Wait(_) | Act::Sleep(_) => self.done.is_none(),
             Act::Emsgsize(x) => self.tr.lock().emsgsize_above != *x,
             Act::TransportPendingOnce => !self.tr.lock().pending_once && self.done.is_none(),
             Act::RepollWriterOtherTask => self.writer.is_some() && self.w_parked != Parked::No,
@@ -1320,6 +1322,13 @@ impl World {
                 }
                 if !self.inject(q, &mut rec) {
                     return false;
+                }
+            }
+            Act::Deliver3(p, q, r) => {
+                for x in [p, q, r] {
+                    if !self.inject(x, &mut rec) {
+                        return false;
+                    }
                 }
             }
             Act::Write(n) => self.app_write(*n, &mut rec),
